@@ -18,7 +18,8 @@ import os
 import subprocess
 import sys
 import time
-from multiprocessing import Pool
+from concurrent.futures import ProcessPoolExecutor
+from concurrent.futures.process import BrokenProcessPool
 
 from harness import common
 from harness.common import Model
@@ -453,10 +454,11 @@ def impl_case(case):
     import signal
 
     lvl = case["lvl"]
-    t0 = time.time()
+    t0 = time.process_time()
     out = {}
-    signal.signal(signal.SIGALRM, _alarm)
-    signal.setitimer(signal.ITIMER_REAL, PROMPT_S)
+    # CPU time of this process (z3 runs in-process), so that machine load cannot cause a false alarm
+    signal.signal(signal.SIGVTALRM, _alarm)
+    signal.setitimer(signal.ITIMER_VIRTUAL, PROMPT_S)
     try:
         if lvl == "L2":
             out = impl_l2(case)
@@ -469,8 +471,8 @@ def impl_case(case):
     except Exception as e:  # noqa: BLE001
         out = {"st": f"exc:{type(e).__name__}", "msg": str(e)[:200]}
     finally:
-        signal.setitimer(signal.ITIMER_REAL, 0)
-    out["t"] = round(time.time() - t0, 4)
+        signal.setitimer(signal.ITIMER_VIRTUAL, 0)
+    out["t"] = round(time.process_time() - t0, 4)
     if not singleton_ok():
         out["singleton_mutated"] = True
         singleton_repair()
@@ -598,21 +600,25 @@ def impl_l1(case):
 
 BIG_EXP_SCRIPT = r"""
 import resource, sys, time
-resource.setrlimit(resource.RLIMIT_AS, (4 << 30, 4 << 30))
+resource.setrlimit(resource.RLIMIT_AS, (2 << 30, 2 << 30))
+resource.setrlimit(resource.RLIMIT_CPU, (BUDGET, BUDGET + 1))   # CPU seconds: SIGXCPU ends the process
 sys.path.insert(0, sys.argv[1])
 from halmos.bitvec import HalmosBitVec as BV
 a, b = int(sys.argv[2]), int(sys.argv[3])
-t0 = time.time()
+t0 = time.process_time()
 try:
     r = BV(a).exp(BV(b))
-    print("ok", r.value, round(time.time() - t0, 3))
+    print("ok", r.value, round(time.process_time() - t0, 3))
 except BaseException as e:
-    print("exc:" + type(e).__name__, 0, round(time.time() - t0, 3))
+    print("exc:" + type(e).__name__, 0, round(time.process_time() - t0, 3))
 """
 
 
+BIG_EXP_CPU_S = 6   # import of halmos + z3 costs about 1 s of it
+
+
 def start_big_exp(a, b):
-    return subprocess.Popen([common.PY, "-c", BIG_EXP_SCRIPT, str(common.REPO / "src"), str(a), str(b)],
+    return subprocess.Popen(["timeout", "-s", "KILL", "300", common.PY, "-c", BIG_EXP_SCRIPT.replace("BUDGET", str(BIG_EXP_CPU_S)), str(common.REPO / "src"), str(a), str(b)],
                             stdout=subprocess.PIPE, stderr=subprocess.DEVNULL, text=True)
 
 
@@ -621,7 +627,8 @@ def finish_big_exp(p, deadline):
         out, _ = p.communicate(timeout=max(0.1, deadline - time.time()))
         parts = out.split()
         if not parts:
-            return {"st": "exc:crash"}
+            # no output: ended by SIGXCPU / SIGKILL (CPU budget used up) or crashed before printing
+            return {"st": "timeout" if p.returncode not in (0, 1) else "exc:crash", "rc": p.returncode}
         if parts[0] == "ok":
             return {"st": "ok", "ty": "bv", "conc": True, "den": [int(parts[1])], "t": float(parts[2])}
         return {"st": parts[0], "t": float(parts[2])}
@@ -1002,6 +1009,35 @@ def make_sig(case, cls):
     return sig
 
 
+def _run_chunk(chunk):
+    return [impl_case(c) for c in chunk]
+
+
+def run_pool(cases, nproc, chunk=24):
+    """map impl_case over the cases in worker processes; a dying worker never hangs the check:
+    the chunks it lost are retried once in a fresh pool, then reported"""
+    out = [None] * len(cases)
+    todo = [list(range(i, min(i + chunk, len(cases)))) for i in range(0, len(cases), chunk)]
+    for attempt in range(3):
+        if not todo:
+            break
+        lost = []
+        with ProcessPoolExecutor(nproc if attempt == 0 else max(2, nproc // 4), initializer=_worker_init) as ex:
+            futs = [(idx, ex.submit(_run_chunk, [cases[i] for i in idx])) for idx in todo]
+            for idx, f in futs:
+                try:
+                    for i, r in zip(idx, f.result(timeout=1200)):
+                        out[i] = r
+                except (BrokenProcessPool, TimeoutError, OSError):
+                    lost.append(idx)
+        # split lost chunks so that a single crashing case is isolated
+        todo = [[i] for idx in lost for i in idx] if attempt >= 1 else lost
+    crashed = [i for idx in todo for i in idx]
+    for i in crashed:
+        out[i] = {"st": "worker-crash"}
+    return out, crashed
+
+
 class Failures:
     """routes property violations: KNOWN entries are reported once as KNOWN-FINDING, the rest fail"""
 
@@ -1129,19 +1165,25 @@ def run(rep, tier):
     r = common.rng(PID)
     B = boundary_values()
     Bset = set(B)
+    phases = {"build_s": round(time.time() - t_start, 1)}
 
     # guarded big-exponent EXP runs (F2): started first, collected at the end
     big = [(2, 1 << 64), ((1 << 255) + 1, 1 << 255), (3, 1 << 27)] if tier == "quick" else \
           [(2, 1 << 64), ((1 << 255) + 1, 1 << 255), (3, 1 << 27), (M256, M256), (7, 1 << 40), (2, 1 << 30)]
     big_procs = [(a, e, start_big_exp(a, e)) for a, e in big]
-    big_deadline = time.time() + PROMPT_S + 2.0
+    big_deadline = time.time() + 280.0   # the children end themselves after BIG_EXP_CPU_S CPU seconds
 
     cases = gen_programs(tier, r, B) + gen_l2(tier, r, B) + gen_l1(tier, r, B)
     if tier == "thorough":
         cases += gen_l1_exhaustive8(r)
     nproc = min(16, os.cpu_count() or 4)
-    with Pool(nproc, initializer=_worker_init) as pool:
-        impl = pool.map(impl_case, cases, chunksize=32)
+    t1 = time.time()
+    impl, crashed = run_pool(cases, nproc)
+    phases["impl_s"] = round(time.time() - t1, 1)
+    t1 = time.time()
+    rep.obligation("implementation workers ran every case", not crashed, f"{len(crashed)} case(s) lost to worker crashes" if crashed else "")
+    for i in crashed[:3]:
+        rep.fail("broken-tie", f"a worker process died while running case {slim(cases[i])} (twice)", case=slim(cases[i]))
 
     model_res = None
     if exe is not None:
@@ -1158,6 +1200,8 @@ def run(rep, tier):
             rep.obligation("extracted model ran on all cases", False, str(e)[:400])
             rep.fail("broken-tie", f"extracted model driver failed: {e}"[:400], case={})
 
+    phases["model_s"] = round(time.time() - t1, 1)
+    rep.coverage["phase_wall_s"] = phases
     fl = Failures(rep)
     latent = {}
     slowest = 0.0
@@ -1172,6 +1216,8 @@ def run(rep, tier):
         rep.evaluations += nv - 1
         rep.case(key, nontrivial=nontrivial(c, Bset))
         slowest = max(slowest, impl[i].get("t", 0))
+        if impl[i].get("st") == "worker-crash":
+            continue
         judge(fl, c, impl[i], model_res[i] if model_res is not None else None, latent)
 
     # big exponents
@@ -1182,7 +1228,7 @@ def run(rep, tier):
         rep.count("op", "exp(big)")
         sig = {"op": "EXP", "class": "not-prompt", "operands": "concrete", "level": "L1-subprocess"}
         if res["st"] == "timeout":
-            fl.failing_input(f"concrete EXP {a} ** {e}: HalmosBitVec.exp did not return within {PROMPT_S + 2}s (killed); EVM result is {pow(a, e, 1 << 256)}", c, sig)
+            fl.failing_input(f"concrete EXP {a} ** {e}: HalmosBitVec.exp did not return within {BIG_EXP_CPU_S} CPU seconds (killed); EVM result is {pow(a, e, 1 << 256)}", c, sig)
         elif res["st"] != "ok":
             sig["class"] = "not-prompt" if res["st"] in ("exc:MemoryError", "exc:OverflowError") else "exception:" + res["st"].split(":")[-1]
             fl.failing_input(f"concrete EXP {a} ** {e}: HalmosBitVec.exp ended with {res['st']} (unreduced power does not fit in memory); EVM result is {pow(a, e, 1 << 256)}", c, sig)
